@@ -140,7 +140,7 @@ func (s *ecSys) Proj() any {
 var ecConfigs = [][2]int{{-1, 0}, {0, 0}, {4, 0}, {-1, 6}, {0, 6}, {4, 6}}
 
 // configurations used by the seeded runs only: a negative default other than NoExpiration
-var ecLinConfigs = [][2]int{{-1, 0}, {0, 0}, {4, 0}, {-1, 6}, {0, 6}, {4, 6}, {-5, 6}, {-5, 0}}
+var ecLinConfigs = [][2]int{{-1, 0}, {0, 0}, {4, 0}, {-1, 6}, {0, 6}, {4, 6}, {-5, 6}, {-5, 0}, {25, 6}, {25, 3}}
 
 func ecOps(step int, full bool) []tt.Op {
 	v := step
